@@ -52,7 +52,7 @@ def required_cells(tier):
             "dangling:same-name-two-dirs", "dangling:same-name-both-forms", "dangling:site-reached-by-2+-commands",
             "unknown-directive:live", "unknown-directive:dead", "benign-directive:dead", "db:missing-file", "db:unknown-compiler",
             "db:unknown-flags", "control:no-warnings", "totals-compared", "memo:failure-then-success-elsewhere",
-            "db:unknown-flags>80-characters", "dangling:below-depth>=64", "db:unknown-implicit-option-from-user-configuration", "header-is-a-compile-command", "log-file-cannot-be-created:refused", "db:entry-repeated-exactly", "unknown-directive:after-form-feed", "db:missing-forced-include", "db:config-redefinition", "dangling:name-with-blanks-and-category-words:cli"]
+            "db:unknown-flags>80-characters", "dangling:below-depth>=64", "db:unknown-implicit-option-from-user-configuration", "header-is-a-compile-command", "log-file-cannot-be-created:refused", "db:entry-repeated-exactly", "unknown-directive:after-form-feed", "db:missing-forced-include", "db:config-redefinition", "fixed:requested-names-with-blanks-category-words-apostrophes", "fixed:computed-include-of-an-undefined-macro"]
 
 
 def is_dangling(name):
@@ -397,6 +397,8 @@ def check_case(ctx, case, base, cls, via_cli, rng):
         cells.add("db:entry-repeated-exactly")
     if case.get("category_words") and any("include.h" in k[2] for k, n in exp["want"].items() if n):
         cells.add("dangling:name-with-blanks-and-category-words" + (":cli" if via_cli else ""))
+    if case.get("category_words") and any("'" in k[2] for k, n in exp["want"].items() if n):
+        cells.add("dangling:name-with-apostrophe" + (":cli" if via_cli else ""))
     if any(s_[2].lstrip(" ")[:1] in "\f\v" and s_[3] == "unknown" and s_[4] for s_ in exp["dsites"]):
         cells.add("unknown-directive:after-form-feed")
     # one command-line case in 8 runs where the log file cannot be created (cbi.log is a directory): the tool may refuse to
@@ -489,6 +491,66 @@ def check_case(ctx, case, base, cls, via_cli, rng):
                          "directive_sites": [list(s) for s in exp["dsites"][:6]], "database_events": dict(db_expect)})
 
 
+def fixed_cli_scenarios(ctx, base):
+    """Two hand-written command-line runs.
+      N  four dangling includes whose requested names hold blanks, the words the totals are keyed on, and apostrophes:
+         one warning each, naming file, line, requested name and form; totals 2 user / 2 system / 4 in all;
+      M  `#include PLATFORM_HEADER` where the macro is not defined for the platform (nothing a compiler accepts): the
+         run may stop with an error, or warn with file and line -- it must not finish silently."""
+    acc = ctx.acc
+    for name in ("N", "M"):
+        d = os.path.join(base, "fixedcli" + name)
+        shutil.rmtree(d, ignore_errors=True)
+        os.makedirs(d)
+        if name == "N":
+            text = '#include "nothere system include.h"\n#include <nothere user include.h>\n#include "nothere it\'s.h"\n#include <o\'neil\'s nothere.h>\nint a;\n'
+        else:
+            text = "int a;\n#include PLATFORM_HEADER\nint b;\n"
+        with open(os.path.join(d, "a.c"), "w") as f:
+            f.write(text)
+        with open(os.path.join(d, "db.json"), "w") as f:
+            json.dump([{"file": "a.c", "directory": d, "arguments": ["gcc", "-c", "a.c"]}], f)
+        with open(os.path.join(d, "analysis.toml"), "w") as f:
+            f.write('[platform.p]\ncommands = "db.json"\n')
+        dump = os.path.join(base, "dump-fixed.json")
+        if os.path.exists(dump):
+            os.unlink(dump)
+        rc, out, err = cli.run("codebasin", ["-R", "summary", "analysis.toml"], d, launch={"dump": dump})
+        acc.hook("cli-runs")
+        problems = []
+        logs = json.load(open(dump))["logs"] if os.path.exists(dump) else []
+        warnings_ = [m for lv, nm, m in logs if lv == "WARNING" and not re.match(r"^\d+ (warnings generated|user include files|system include files)", m)]
+        if name == "N":
+            want = collections.Counter({("a.c", 1, "nothere system include.h", "user include"): 1, ("a.c", 2, "nothere user include.h", "system include"): 1,
+                                        ("a.c", 3, "nothere it's.h", "user include"): 1, ("a.c", 4, "o'neil's nothere.h", "system include"): 1})
+            got = collections.Counter()
+            for w in warnings_:
+                m = INC_RE.match(w.split("\n")[0])
+                if m:
+                    got[(os.path.relpath(m.group(1), os.path.realpath(d)), int(m.group(2)), m.group(4), m.group(3))] += 1
+            if rc != 0:
+                problems.append({"kind": "cli failed", "stderr": err[-300:]})
+            if got != want:
+                problems.append({"kind": "include warnings", "missing": sorted((want - got).items()), "extra": sorted((got - want).items())})
+            metas = {k: (int(v.group(1)) if v else 0) for k, v in (("all", re.search(r"(\d+) warnings generated during preprocessing", out)),
+                                                                    ("user", re.search(r"(\d+) user include files could not be found", out)),
+                                                                    ("system", re.search(r"(\d+) system include files could not be found", out)))}
+            if metas != {"all": 4, "user": 2, "system": 2}:
+                problems.append({"kind": "printed totals", "expected": {"all": 4, "user": 2, "system": 2}, "observed": metas})
+            acc.cells["fixed:requested-names-with-blanks-category-words-apostrophes"] += 1
+        else:
+            said = [m for lv, nm, m in logs if lv in ("WARNING", "ERROR", "CRITICAL")] + [ln for ln in (out + err).splitlines() if re.match(r"^(error|warning):", ln)]
+            if rc == 0 and not any("a.c" in m or "PLATFORM_HEADER" in m or "Invalid path" in m for m in said):
+                problems.append({"kind": "an #include that could not be honoured left no trace", "rc": rc, "messages": said[:5], "stdout": out[-200:]})
+            acc.cells["fixed:computed-include-of-an-undefined-macro:" + ("refused" if rc != 0 else "warned")] += 1
+            acc.cells["fixed:computed-include-of-an-undefined-macro"] += 1
+        case = {"scenario": "fixed-cli-" + name, "text": text}
+        if problems:
+            acc.violated({"input": case, "witness": dict(case, problems=problems)}, cells=set(), cls="fixed")
+        else:
+            acc.held(cells=set(), cls="fixed", nontrivial=case)
+
+
 def memo_case():
     """A memoised failure followed by a success for the same spelling from elsewhere."""
     files = {
@@ -532,7 +594,10 @@ def run_shard(ctx):
             def rename(body):
                 for it in body:
                     if it[0] == "include" and it[1] in ("q", "a") and it[2] == "nothere.h":
-                        it[2] = "nothere system include.h" if it[1] == "q" else "nothere user include.h"
+                        if i % 8 == 3:
+                            it[2] = "nothere system include.h" if it[1] == "q" else "nothere user include.h"
+                        else:
+                            it[2] = "nothere it's.h" if it[1] == "q" else "nothere o'neil's.h"        # apostrophes in the requested name
                         case["category_words"] = True
                     elif it[0] == "chain":
                         for _, _, sub in it[1]:
@@ -543,6 +608,8 @@ def run_shard(ctx):
         if ctx.mine(i):
             import random as _r
             check_case(ctx, case, base, "control" if control else ("cli" if via_cli else "inproc"), via_cli, _r.Random(crng_seed))
+    if ctx.shard == 1 % ctx.nshards:
+        fixed_cli_scenarios(ctx, base)
     if ctx.shard == 0:
         import random as _r
         mc = memo_case()
